@@ -229,6 +229,34 @@ func checkC06(r *core.Result) {
 				if isMap {
 					checkMapEntryArm(r, info, mc, ex, a, name)
 				}
+				// explicit-presence bytes: the stored slice must be non-nil even when the field is present but empty
+				if a.field != nil && k == protoreflect.BytesKind && !rep && !isMap && a.field.Desc.HasPresence() {
+					maybeNil := ""
+					for _, s := range a.clause.Body {
+						ast.Inspect(s, func(n ast.Node) bool {
+							as, ok := n.(*ast.AssignStmt)
+							if !ok {
+								return true
+							}
+							for _, rhs := range as.Rhs {
+								if c, ok := rhs.(*ast.CallExpr); ok {
+									if id, ok := c.Fun.(*ast.Ident); ok && id.Name == "append" && len(c.Args) >= 1 {
+										// append(nil-valued, x...) is nil when x is empty
+										first := types.ExprString(c.Args[0])
+										if first == "nil" || strings.HasSuffix(first, "(nil)") {
+											maybeNil = types.ExprString(rhs)
+										}
+									}
+								}
+								if id, ok := rhs.(*ast.Ident); ok && id.Name == "nil" {
+									maybeNil = "nil"
+								}
+							}
+							return true
+						})
+					}
+					r.GroupOb("U-bytes-presence", grp, name, apos, maybeNil == "", "the decoded value passes through "+maybeNil+", which is nil for a present-but-empty field: presence (non-nil slice) is lost and the field reads as unset")
+				}
 				if a.field != nil && k == protoreflect.MessageKind && !rep && !isMap && !a.isOneof {
 					// merge rule: the nested decoder must be given the existing value when there is one
 					merges := false
